@@ -377,43 +377,41 @@ Definition range_in (x : pyval) (lo hi : Z) : bool :=
 (* ------------------------------------------------------------------ *)
 (* arithmetic: %, -, abs                                               *)
 
+Definition float_mod (a b : pyval) : res pyval :=
+  let* x := to_float a in
+  let* y := to_float b in
+  if fst y =? 0 then Err ZeroDivisionError else
+  let e := Z.min (snd x) (snd y) in
+  let X := Z.shiftl (fst x) (snd x - e) in
+  let Y := Z.shiftl (fst y) (snd y - e) in
+  let* r := fl_round (X mod Y) e in
+  Ok (vfloat_of_num r).
+
+Definition float_sub (a b : pyval) : res pyval :=
+  let* x := to_float a in
+  let* y := to_float b in
+  let e := Z.min (snd x) (snd y) in
+  let X := Z.shiftl (fst x) (snd x - e) in
+  let Y := Z.shiftl (fst y) (snd y - e) in
+  let* r := fl_round (X - Y) e in
+  Ok (vfloat_of_num r).
+
+Definition is_num (v : pyval) : bool := match num_of v with Some _ => true | None => false end.
+
 Definition py_mod (a b : pyval) : res pyval :=
   match a with
   | VStr _ => Err StrFormat
   | _ =>
     match int_of a, int_of b with
     | Some x, Some y => if y =? 0 then Err ZeroDivisionError else Ok (VInt (x mod y))
-    | _, _ =>
-      match num_of a, num_of b with
-      | Some _, Some _ =>
-          let* x := to_float a in
-          let* y := to_float b in
-          if fst y =? 0 then Err ZeroDivisionError else
-          let e := Z.min (snd x) (snd y) in
-          let X := Z.shiftl (fst x) (snd x - e) in
-          let Y := Z.shiftl (fst y) (snd y - e) in
-          let* r := fl_round (X mod Y) e in
-          Ok (vfloat_of_num r)
-      | _, _ => Err TypeError
-      end
+    | _, _ => if is_num a && is_num b then float_mod a b else Err TypeError
     end
   end.
 
 Definition py_sub (a b : pyval) : res pyval :=
   match int_of a, int_of b with
   | Some x, Some y => Ok (VInt (x - y))
-  | _, _ =>
-    match num_of a, num_of b with
-    | Some _, Some _ =>
-        let* x := to_float a in
-        let* y := to_float b in
-        let e := Z.min (snd x) (snd y) in
-        let X := Z.shiftl (fst x) (snd x - e) in
-        let Y := Z.shiftl (fst y) (snd y - e) in
-        let* r := fl_round (X - Y) e in
-        Ok (vfloat_of_num r)
-    | _, _ => Err TypeError
-    end
+  | _, _ => if is_num a && is_num b then float_sub a b else Err TypeError
   end.
 
 Definition py_abs (a : pyval) : res pyval :=
